@@ -4,11 +4,11 @@
 P=$1; V=$2; PFX=${3:-wt}; WT=/tmp/$PFX-$P; S=$WT/SEEDED/$V
 cd $WT || exit 2
 git checkout -q -- src; mkdir -p tests; cp $S/seeded_demo.rs tests/seeded_demo.rs
-clean=$(cargo test --offline --test seeded_demo 2>&1 | grep -E "^test result" | tail -1)
+clean=$(cargo test --offline $FEATURES --test seeded_demo 2>&1 | grep -E "^test result" | tail -1)
 if ! git apply --check $S/patch.diff 2>/dev/null; then echo "CONFIRM $P/$V patch-does-not-apply"; exit 0; fi
 git apply $S/patch.diff
 lib=$(cargo test --offline --lib 2>&1 | grep -E "^test result" | tail -1)
 doc=$(cargo test --offline --doc 2>&1 | grep -E "^test result" | tail -1)
-demo=$(cargo test --offline --test seeded_demo 2>&1 | grep -E "^test result" | tail -1)
+demo=$(cargo test --offline $FEATURES --test seeded_demo 2>&1 | grep -E "^test result" | tail -1)
 git checkout -q -- src
 echo "CONFIRM $P/$V | clean-demo: $clean | lib: $lib | doc: $doc | patched-demo: $demo" | sed 's/; 0 ignored; 0 measured; 0 filtered out//g; s/finished in [0-9.]*s//g'
